@@ -26,6 +26,8 @@ type generator struct {
 
 var gens = []generator{
 	{file: "Nucleotide.lean", src: "nucleotide.go", run: genNucleotide},
+	{file: "Date.lean", src: "seqio/date.go", run: genDate},
+	{file: "MolTop.lean", src: "molecule.go, topology.go", run: genMolTop},
 }
 
 func writeIfChanged(path string, content []byte) (bool, error) {
